@@ -132,7 +132,7 @@ proof fn lemma_compose(rf: Seq<u8>, af: Seq<u8>, p: Seq<u8>, a: StunAttribute, l
 //@item! stun_rs :: mod context > struct MessageEncoder
 impl MessageEncoder {
 //@item stun_rs :: mod context > impl MessageEncoder > fn encode
-//@tags C14 C01 C02 C04 C10
+//@tags C14 C01 C02 C04 C10 C13
 //@rules R3
 //@spec
     ensures final(buffer)@.len() == old(buffer)@.len(),
